@@ -730,7 +730,12 @@ def swap_site(out_ops_list, primary_ops: List, swap_jw: bool, algo="Hopcroft-Kar
         for op in new_out_ops3_unsorted[idx1]:
             new_out_ops3[idx2].append(OpTuple(symbol=op.symbol, qn=op.qn, factor=op.factor * dummy_op.factor))
         del dummy_op, idx1, idx2
-    assert [] not in new_out_ops3
+    # an auxiliary label whose operator vanishes (a redundant bond index, e.g. contributions that cancel exactly)
+    # does not appear in the re-decomposition. Keep it as an explicit zero
+    for idx2, out_op_sum_list in enumerate(new_out_ops3):
+        if not out_op_sum_list:
+            template = new_out_ops3_unsorted[0][0]
+            out_op_sum_list.append(OpTuple(symbol=template.symbol, qn=-auxiliary_dummy_primary_ops[idx2].qn, factor=0.0))
 
     if not swap_jw:
         # if swap_jw == True, it's bound to fail
